@@ -12,13 +12,13 @@ macro_rules! ops_for {
 		use crate::fam::$m::AOp;
 		let mut ops: Vec<AOp> = Vec::new();
 		// "u"/"%75", "h"/"%68", "[::1]"/"[::01]"... : different spellings, some equal under ==
-		let mut us: Vec<Option<&str>> = vec![None, Some(""), Some("u"), Some("%75"), Some("u:p"), Some("user:password"), Some("%7e%c3%a9")];
+		let mut us: Vec<Option<&str>> = vec![None, Some(""), Some("u"), Some("%75"), Some("u:p"), Some("user:password"), Some("%7e%c3%a9"), Some(":"), Some(":p")];
 		// "caf%c3%a9": escapes spelled with lower-case hex digits (the text must be kept as given)
 		let mut hs: Vec<&str> = vec!["", "h", "%68", "H", "[::1]", "example.org", "1.2.3.4", "caf%c3%a9", "%7euser", "[v1.x:y]"];
 		// the grammar puts no bound on the number of digits of a port
 		let mut ps: Vec<Option<&str>> = vec![None, Some(""), Some("8"), Some("8080"), Some("065535"), Some("18446744073709551616")];
 		if $level >= 1 {
-			us.extend([Some(":"), Some("%41")]);
+			us.extend([Some("::"), Some("%41")]);
 			hs.extend(["[v1.a:b]", "%41", "[1:2::8]"]);
 		}
 		if $f == Family::Iri {
@@ -52,6 +52,9 @@ pub fn contexts() -> Vec<(Vec<u8>, Vec<u8>)> {
 		(domains::b("//"), domains::b("/")),
 		(domains::b("//"), domains::b("?q")),
 		(domains::b("s://"), domains::b("#fff")),
+		// a path that starts with an empty segment (after an authority that may become empty)
+		(domains::b("s://"), domains::b("//foo?q#f")),
+		(domains::b("//"), domains::b("//")),
 	]
 }
 
